@@ -70,7 +70,7 @@ pub fn one_effort(m: &LinearModel, tol: f64, effort: usize, tags: &mut Vec<Strin
             let nfree = m.variables().iter().filter(|n| matches!(m.domain().get(*n).map(|d| *d.get_type()), Some(VariableType::Real(_, _)))).count();
             let nslack = v.variables.iter().filter(|n| n.starts_with("$sl_")).count();
             let nsurplus = v.variables.iter().filter(|n| n.starts_with("$su_")).count();
-            let nbound = v.rows.len() - m.constraints().len();
+            let nbound = v.rows.len().saturating_sub(m.constraints().len());
             let nflip = m.constraints().iter().filter(|r| r.rhs() < 0.0).count(); // exact sign test since /repo 947e0f0
             if m.constraints().iter().any(|r| r.rhs() < 0.0 && !rooc::verif_hooks::float_lt_hook(r.rhs(), 0.0)) { tags.push("regression:rhs-negative-inside-old-tolerance-band".into()); }
             if nfree > 0 { tags.push("rule:free-split".into()); }
